@@ -76,6 +76,11 @@ impl TwoFloat {
     /// assert!((b - c).abs() < 1e-10);
     /// ```
     pub fn acosh(self) -> Self {
+        if self < 1.0 {
+            // for x <= -1 the sum x + sqrt(x^2 - 1) should be negative, but it
+            // cancels and rounding can leave a small positive number
+            return Self::NAN;
+        }
         (self + (self * self - 1.0).sqrt()).ln()
     }
 
